@@ -51,6 +51,7 @@ fn run_line(line: &str) -> String {
         "TSTR" => chan_time::tstr(args),
         "TSFMT" => chan_time::tsfmt(args),
         "NOW" => chan_time::now(args),
+        "TICK" => chan_time::tick(args),
         "SCHED" => chan_now::sched(args),
         "VALIDATE" => chan_ops::validate(args),
         "OPS" => chan_ops::ops(args),
@@ -79,6 +80,7 @@ fn run_line(line: &str) -> String {
         "ENC" => chan_bundle::enc(args),
         "CRCV" => chan_bundle::crcv(args),
         "RT" => chan_bundle::rt(args),
+        "RTV" => chan_bundle::rtv(args),
         "SPEC" => chan_bundle::spec(args),
         "DECRT" => chan_bundle::decrt(args),
         "CRC16" => chan_bundle::crc16(args),
